@@ -136,10 +136,12 @@ class Dataset(collection.Collection):
         # key: object id before slicing, value: object after slicing
         memo = dict()
 
+        idx = np.asarray(idx)
         for field in self._fields.values():
             field.subset(idx, memo)
 
-        self._num_obs = int(np.sum(idx))
+        # Boolean mask: number of True values. Integer index array: number of selected rows.
+        self._num_obs = int(np.sum(idx)) if idx.dtype == bool else len(idx)
 
     def extend(self, other_dataset: "Dataset", meta_key=None) -> None:
         """Add observations from another dataset to the end of this dataset"""
